@@ -365,7 +365,8 @@ func (w *c14World) do(op string, rnd func(int) int) {
 			if w.r.n.ConnectNoWait(p.ID(), w.nd.ID()) == nil {
 				time.Sleep(time.Duration(rnd(30)) * time.Millisecond)
 				if _, err := p.Open(w.nd.ID()); err == nil {
-					p.Send(w.nd.ID(), vSubRPC(true, t))
+					// (a write into an in-memory stream whose other end has gone away can block: bounded)
+					p.SendRawTimeout(w.nd.ID(), vFrame(mustMarshal(vSubRPC(true, t))), 200*time.Millisecond)
 				}
 			}
 		} else {
@@ -732,11 +733,11 @@ func mustMarshal(r *pb.RPC) []byte {
 // c14StackOf returns the stack of a goroutine in this bubble that sits in the
 // named API (best effort, for the report).
 func c14StackOf(op string) string {
-	for _, g := range vLibGoroutines(vGoroutinesInBubble()) {
+	for _, g := range vGoroutinesInBubble() {
 		if strings.Contains(g, "c14World).do") {
 			lines := strings.Split(g, "\n")
-			if len(lines) > 14 {
-				lines = lines[:14]
+			if len(lines) > 24 {
+				lines = lines[:24]
 			}
 			return strings.Join(lines, "\n")
 		}
